@@ -80,8 +80,9 @@ class LoopSpec:
     modifies: list of location paths ('x' local, 'self.f' field content, '@<addr>' heap cell) that are havocked.
     """
 
-    def __init__(self, invariant=None, variant=None, modifies=(), header: str = "", unroll: int = 0):
+    def __init__(self, invariant=None, variant=None, modifies=(), header: str = "", unroll: int = 0, prepare=None):
         self.invariant, self.variant, self.modifies, self.header, self.unroll = invariant, variant, list(modifies), header, unroll
+        self.prepare = prepare      # optional normalisation of locals before the cut (e.g. None|Char -> Optional)
 
 
 class Contract:
@@ -1244,6 +1245,8 @@ class Executor:
 
     def havoc(self, st: State, paths: List[str], tag: str):
         for p in paths:
+            window_only = p.endswith(":window")     # list whose elements are not written, only its ends move
+            p = p.split(":")[0]
             try:
                 cur = self._read_path(st, p)
             except Unsupported:
@@ -1251,6 +1254,8 @@ class Executor:
                     continue        # a local that is first assigned inside the loop
                 raise
             new = self._havoc_value(st.deref(cur), f"{tag}.{p}")
+            if window_only and isinstance(new, ListV):
+                new = ListV(st.deref(cur).arr, new.lo, new.hi, new.wrap)
             if isinstance(cur, Ref):
                 st.heap[cur.addr] = new
             else:
@@ -1271,6 +1276,8 @@ class Executor:
             return StrV(note="havoc")
         if isinstance(v, NoneV):
             return v
+        if isinstance(v, PyList) and getattr(self, "empty_list_sort", None) is not None:
+            return ListV(fresh(tag + ".arr", z3.ArraySort(z3.IntSort(), self.empty_list_sort)), z3.IntVal(0), fresh(tag + ".hi", z3.IntSort()))
         raise Unsupported(f"havoc of {type(v).__name__}")
 
     def _read_path(self, st: State, p: str):
@@ -1301,7 +1308,7 @@ class Executor:
         """every heap cell / local not declared in `modifies` must be unchanged by the body"""
         declared_cells = set()
         declared_locals = set()
-        for p in spec.modifies:
+        for p in [q.split(":")[0] for q in spec.modifies]:
             try:
                 cur = self._read_path(pre, p)
             except Exception:
@@ -1320,7 +1327,7 @@ class Executor:
                 for fname, fv in v.fields.items():
                     fw = w.fields.get(fname)
                     if not _same(fv, fw):
-                        if any(p.endswith("." + fname) for p in spec.modifies if "." in p):
+                        if any(p.split(":")[0].endswith("." + fname) for p in spec.modifies if "." in p):
                             continue
                         self.oblige("frame", post, _eqv(fv, fw), line, f"field {fname}")
             elif not _same(v, w):
@@ -1347,6 +1354,8 @@ class Executor:
             return self._while_concrete(s, st)
         line = s.lineno
         self.coerce_empty_dicts(st, spec.modifies)
+        if spec.prepare is not None:
+            spec.prepare(self, st)
         entry = self.snapshot(st)
         ghost: Dict[str, Any] = {}
         if spec.invariant is not None:
